@@ -198,8 +198,24 @@ def _native_limits(pipeline, steps=20):
       st = step(sys, st, jp.zeros(0))
     out.append(np.asarray(st.q))
   d = float(np.abs(out[0] - out[1]).max())
-  return {'reproduced': d > 1e-6, 'q_with_unreached_limits': out[0].tolist(), 'q_without_limits': out[1].tolist(), 'max_difference': d, 'steps': steps,
-          'pipeline': pipeline, 'model': 'two hinges, range +-3 rad never reached'}
+  if d > 1e-6:
+    return {'reproduced': True, 'q_with_unreached_limits': out[0].tolist(), 'q_without_limits': out[1].tolist(), 'max_difference': d, 'steps': steps,
+            'pipeline': pipeline, 'model': 'two hinges, range +-3 rad never reached'}
+  # a slide joint whose range does NOT contain 0 (a telescopic link), coordinate well inside the range, a few steps without gravity
+  tele = ('<mujoco><compiler angle="radian"/><option timestep="0.002" gravity="0 0 0"/><worldbody><body name="a" pos="0 0 1"><freejoint/><geom size="0.1"/>'
+          '<body name="b" pos="0.3 0 0"><joint type="slide" axis="1 0 0" %s/><geom size="0.05" pos="0.1 0.05 0"/></body></body></worldbody></mujoco>')
+  out2 = []
+  for xml in (tele % 'limited="true" range="0.2 0.8"', tele % ''):
+    sys = mjcf.loads(xml)
+    q0 = jp.concatenate([sys.init_q[:7], jp.array([0.5])])
+    st = pl.init(sys, q0, jp.zeros(7))
+    step = jax.jit(pl.step)
+    for _ in range(3):
+      st = step(sys, st, jp.zeros(0))
+    out2.append(np.concatenate([np.asarray(st.x.rot).reshape(-1), np.asarray(st.q)]))
+  d2 = float(np.abs(out2[0] - out2[1]).max())
+  return {'reproduced': d2 > 1e-7, 'max_difference': max(d, d2), 'telescope_state_with_unreached_range_0.2_0.8': out2[0].tolist(), 'telescope_state_without_range': out2[1].tolist(), 'steps': steps,
+          'pipeline': pipeline, 'model': 'two hinges (range +-3 rad never reached) and a telescopic slide (range 0.2..0.8, q = 0.5)'}
 
 
 def contact_inert(pipeline, ncon, tiers):
